@@ -75,6 +75,8 @@ pub enum Rule {
     /// deliver a stray `offset` ns after the worker's burst number `burst` (0-based) was sent;
     /// with `suppress`, peer datagrams *sent* in [burst time, burst time + max(offset, suppress_for)] are lost
     InjectAfterBurst { burst: usize, offset: u64, stray: Stray, suppress: bool, suppress_for: u64 },
+    /// the link dies one way: every datagram of a direction from index `idx` on is lost
+    DropFrom { dir: Dir, idx: usize },
     /// every datagram of a direction is delivered 1 + extra times
     DupAll { dir: Dir, extra: u32 },
     /// seeded random loss in permille for a direction
@@ -247,6 +249,7 @@ pub struct Core {
     pub dgram_abs: [Vec<u64>; 2],
     verified_prefix: u64,
     consecutive_timeouts: u32,
+    calls_after_cap: u32,
 }
 
 impl Core {
@@ -294,6 +297,7 @@ impl Core {
             dgram_abs: [Vec::new(), Vec::new()],
             verified_prefix: 0,
             consecutive_timeouts: 0,
+            calls_after_cap: 0,
         }
     }
 
@@ -420,6 +424,10 @@ impl Core {
                         copies.clear();
                     }
                 }
+                Rule::DropFrom { dir: d, idx: i } if d == dir && idx >= i => {
+                    self.rules_fired += 1;
+                    copies.clear();
+                }
                 Rule::DupAll { dir: d, extra } if d == dir => {
                     if let Some(&c) = copies.first() {
                         for _ in 0..extra {
@@ -516,6 +524,7 @@ impl Core {
     fn on_worker_send(&mut self, bytes: Vec<u8>) -> Result<(), Box<dyn Error>> {
         self.sync_clock();
         if self.capped {
+            self.after_cap();
             return Err("simulation event cap reached".into());
         }
         self.start_peer();
@@ -619,6 +628,7 @@ impl Core {
     fn on_worker_recv(&mut self, size: usize) -> Result<Packet, Box<dyn Error>> {
         self.sync_clock();
         if self.capped {
+            self.after_cap();
             return Err("simulation event cap reached".into());
         }
         self.start_peer();
@@ -691,6 +701,15 @@ impl Core {
                     }
                 }
             }
+        }
+    }
+
+    /// A worker that keeps calling the socket although every call fails since the cap was hit would spin forever;
+    /// its thread is unwound instead (the case is reported as capped, not as a panic of the code under test).
+    fn after_cap(&mut self) {
+        self.calls_after_cap += 1;
+        if self.calls_after_cap > 64 {
+            panic!("simulation cap: the worker does not stop calling the socket");
         }
     }
 
@@ -844,10 +863,10 @@ pub fn run_case(spec: &CaseSpec, dir: &std::path::Path, uniq: u64) -> Outcome {
     let joined = handle.join();
     let mut c = core.lock().unwrap_or_else(|p| p.into_inner());
     c.drain();
-    let end = if joined.is_err() {
-        EndHow::Panicked
-    } else if c.capped {
+    let end = if c.capped {
         EndHow::Capped
+    } else if joined.is_err() {
+        EndHow::Panicked
     } else {
         EndHow::Joined
     };
